@@ -522,8 +522,8 @@ def run_rec(text, atom=None, operators=None, steps=None):
     return canon_result(r)
 
 
-def run_stock(text):
-    """real ExpressionSolver(AtomBase) -> ('ok', repr of value) / 'err' / 'none'"""
+def _stock_local(text):
+    """real ExpressionSolver(AtomBase) in THIS process -> Val / 'err'"""
     from scinumtools.solver import ExpressionSolver, AtomBase
 
     def f():
@@ -535,6 +535,108 @@ def run_stock(text):
             return ("non-atom result", type(r).__name__)
         return r.value
     return float_outcome(f)
+
+
+def _encode(o):
+    if not isinstance(o, Val):
+        return {"o": o}
+    v = o.v
+    k = num_kind(v)
+    if v is None:
+        return {"k": "none"}
+    if k == "bool":
+        return {"k": "bool", "v": bool(v)}
+    if k == "int":
+        return {"k": "int", "v": str(int(v))} if int(v).bit_length() < 200000 else {"o": "huge-int"}
+    if k == "float":
+        return {"k": "float", "v": float(v).hex()}
+    if k == "complex":
+        return {"k": "complex", "v": [float(v.real).hex(), float(v.imag).hex()]}
+    return {"k": "other", "v": repr(v)}
+
+
+def _decode(d):
+    if "o" in d:
+        return d["o"]
+    k = d["k"]
+    if k == "none":
+        return Val(None)
+    if k == "bool":
+        return Val(d["v"])
+    if k == "int":
+        return Val(int(d["v"]))
+    if k == "float":
+        return Val(float.fromhex(d["v"]))
+    if k == "complex":
+        return Val(complex(float.fromhex(d["v"][0]), float.fromhex(d["v"][1])))
+    return Val(d["v"])
+
+
+class _StockWorker:
+    """The stock solver runs in a worker process with a watchdog: a change that makes an evaluation explode
+    (e.g. exact big-integer powers) must give the outcome 'timeout', not hang the check."""
+
+    def __init__(self):
+        self.p = None
+
+    def start(self):
+        import os
+        import subprocess
+        import sys
+        here = os.path.dirname(os.path.dirname(os.path.dirname(os.path.abspath(__file__))))
+        code = ("import sys, json, resource; sys.path.insert(0, %r); sys.setrecursionlimit(20000)\n"
+                "resource.setrlimit(resource.RLIMIT_AS, (6 << 30, 6 << 30))\n"
+                "sys.set_int_max_str_digits(0)\n"
+                "from harness import core; core.use_repo()\n"
+                "from harness.props import c01_lang as L\n"
+                "for line in sys.stdin:\n"
+                "    try:\n"
+                "        out = L._encode(L._stock_local(json.loads(line)['s']))\n"
+                "    except BaseException as ex:\n"
+                "        out = {'o': 'worker-failure'}\n"
+                "    sys.stdout.write(json.dumps(out) + '\\n'); sys.stdout.flush()\n") % here
+        self.p = subprocess.Popen([sys.executable, "-c", code], stdin=subprocess.PIPE, stdout=subprocess.PIPE,
+                                  stderr=subprocess.DEVNULL, text=True, bufsize=1)
+
+    def ask(self, text, timeout):
+        import json as _json
+        import select
+        if self.p is None or self.p.poll() is not None:
+            self.start()
+        try:
+            self.p.stdin.write(_json.dumps({"s": text}) + "\n")
+            self.p.stdin.flush()
+            r, _, _ = select.select([self.p.stdout], [], [], timeout)
+            if r:
+                line = self.p.stdout.readline()
+                if line:
+                    return _decode(_json.loads(line))
+        except (OSError, ValueError):
+            pass
+        try:
+            self.p.kill()
+            self.p.wait()
+        except OSError:
+            pass
+        self.p = None
+        return None
+
+
+_WORKER = _StockWorker()
+
+
+def run_stock(text):
+    """real ExpressionSolver(AtomBase) -> Val / 'err' / 'timeout' (worker process with a watchdog)"""
+    if STOCK["off"]:
+        return "skipped"
+    out = _WORKER.ask(text, 20)             # unchanged code needs well under a second for every generated input
+    if out in (None, "worker-failure"):
+        STOCK["off"] = True                 # one explosion is enough: do not wait for the next ones
+        return "timeout"
+    return out
+
+
+STOCK = {"off": False}
 
 
 def canon_model(m, opname=None):
